@@ -124,7 +124,8 @@ class _UnionNormType(_BasicNormType):
     # ensure stable order of args during one interpreter session
     def _make_orderable(self, obj: object) -> str:
         if isinstance(obj, BaseNormType):
-            return f"{obj.origin} {[self._make_orderable(arg) for arg in obj.args]}"
+            # id() tells apart distinct origins that have the same representation (e.g. classes created by one function)
+            return f"{obj.origin} {id(obj.origin)} {[self._make_orderable(arg) for arg in obj.args]}"
         if isinstance(obj, tuple):  # parameters of Callable, repr() of norm types depends on the spelling of the hint
             return f"({[self._make_orderable(el) for el in obj]})"
         return repr(obj)  # str() does not distinguish `1` and `"1"`
@@ -152,7 +153,8 @@ class _LiteralNormType(_BasicNormType):
 
     # ensure stable order of args during one interpreter session
     def _make_orderable(self, obj: LiteralArg) -> str:
-        return f"{type(obj)}{obj.name}" if isinstance(obj, Enum) else repr(obj)
+        # id() tells apart distinct enum classes that have the same representation
+        return f"{type(obj)}{id(type(obj))}{obj.name}" if isinstance(obj, Enum) else repr(obj)
 
     def _order_args(self, args: VarTuple[LiteralArg]) -> VarTuple[LiteralArg]:
         args_list = list(args)
